@@ -1199,8 +1199,26 @@ def r03_4(cx):
     cx.report('R03.4', 'automaton::OverlappingState', 'private-fields', not pub, 'all fields of OverlappingState are private' if not pub else 'public fields: %s' % pub)
     allowed = {OVER, OVER_IMP, 'automaton::OverlappingState::start'}
     bad = []
+    from acverif.inline import vocab
+    from acverif.rl import CallGraph
+    cg = CallGraph(cx.facts)
+
+    def part_of_allowed(p, depth=3):
+        """a private helper that did not exist on the reference tree and is called only from the allowed writers is part of them
+        (the rules on the drivers see its statements spliced in)"""
+        if p in allowed:
+            return True
+        pb = cx.facts.bodies[p]
+        if depth == 0 or p in vocab() or pb.j.get('public'):
+            return False
+        cs = {c for c, _ in cg.callers(p)}
+        return bool(cs) and all(part_of_allowed(c, depth - 1) for c in cs)
     for p, b in cx.facts.bodies.items():
         if p in allowed or b.j.get('derived'):
+            continue
+        if not any((any(isinstance(x, dict) and x.get('of') == 'automaton::OverlappingState' for x in pl['pr'])) or (si != 'term' and st.get('r', {}).get('adt') == 'automaton::OverlappingState') for bi, si, pl, st in b.stores()):
+            continue
+        if part_of_allowed(p):
             continue
         for bi, si, pl, st in b.stores():
             prs = pl['pr']
